@@ -18,8 +18,10 @@ package main
 
 import (
 	"fmt"
+	"go/constant"
 	"go/token"
 	"go/types"
+	"os"
 	"sort"
 	"strings"
 
@@ -35,10 +37,11 @@ type cgCtx struct {
 	nodes   map[*ssa.BasicBlock][]*cgNode
 	rets    []*cgNode
 	kids    map[ssa.Instruction]*cgCtx
-	args    []CV   // actual for each fn.Params[i]
-	binds   []CV   // actual for each fn.FreeVars[i]
-	isAsync bool   // started with `go`
-	key     string // stable identity across rebuilds: chain of call sites
+	args    []CV     // actual for each fn.Params[i]
+	binds   []CV     // actual for each fn.FreeVars[i]
+	isAsync bool     // started with `go`
+	key     string   // stable identity across rebuilds: chain of call sites
+	alts    []*cgCtx // further possible callees of the same call site (table of function values, phi of functions)
 }
 
 // CV is an SSA value in a context.
@@ -147,6 +150,9 @@ func c01NewGraph(p *Prog, root *ssa.Function) *cGraph {
 			}
 			hints[hk] = v
 			found = true
+			if os.Getenv("C01_HINTS") != "" {
+				fmt.Printf("HINT round %d: %s in %s -> %s (ctx %s)\n", round, in.String(), n.C.fn.Name(), v.V.String(), v.C.fn.Name())
+			}
 		})
 		if !found {
 			break
@@ -224,6 +230,14 @@ func (g *cGraph) target(c *cgCtx, ci ssa.CallInstruction) (fn *ssa.Function, arg
 			}
 		}
 		if !ok {
+			// an unexported seam with a single implementation in the package
+			if m := g.soleImplementation(cc.Value.Type(), cc.Method); m != nil && m.Pkg == g.pkg {
+				args = append(args, recv)
+				for _, a := range cc.Args {
+					args = append(args, CV{c, a})
+				}
+				return origin(m), args, nil, true
+			}
 			return nil, nil, nil, false
 		}
 		sel := g.p.SSA.MethodSets.MethodSet(mi.X.Type()).Lookup(cc.Method.Pkg(), cc.Method.Name())
@@ -315,17 +329,45 @@ func (g *cGraph) expand(c *cgCtx) {
 			if _, isDefer := in.(*ssa.Defer); isDefer {
 				continue
 			}
-			fn, args, binds, ok := g.target(c, ci)
-			if !ok || !g.inlinable(c, fn) || len(args) != len(fn.Params) {
+			var tgts []cgTarget
+			if fn, args, binds, ok := g.target(c, ci); ok {
+				tgts = []cgTarget{{fn, args, binds}}
+			} else {
+				tgts = g.tableTargets(c, ci)
+			}
+			usable := len(tgts) > 0
+			for _, t := range tgts {
+				if !g.inlinable(c, t.fn) || len(t.args) != len(t.fn.Params) {
+					usable = false
+				}
+			}
+			if !usable {
 				continue
 			}
 			n := &cgNode{C: c, B: b, lo: lo, hi: i + 1}
-			kid := g.newCtx(c, ci, fn, args, binds)
-			_, kid.isAsync = in.(*ssa.Go)
+			var kid *cgCtx
+			for ti, t := range tgts {
+				k := g.newCtx(c, ci, t.fn, t.args, t.binds)
+				if ti > 0 {
+					k.key = fmt.Sprintf("%s#%d", k.key, ti)
+					if g.byKey != nil {
+						g.byKey[k.key] = k
+					}
+				}
+				_, k.isAsync = in.(*ssa.Go)
+				if kid == nil {
+					kid = k
+				} else {
+					kid.alts = append(kid.alts, k)
+				}
+			}
 			n.kid = kid
 			c.kids[in] = kid
 			c.nodes[b] = append(c.nodes[b], n)
 			g.expand(kid)
+			for _, a := range kid.alts {
+				g.expand(a)
+			}
 			lo = i + 1
 		}
 		n := &cgNode{C: c, B: b, lo: lo, hi: len(b.Instrs)}
@@ -360,10 +402,12 @@ func (g *cGraph) link(c *cgCtx) {
 		ns := c.nodes[b]
 		for i, n := range ns {
 			if n.kid != nil {
-				g.link(n.kid)
-				g.edge(n, n.kid.entry())
-				for _, r := range n.kid.rets {
-					g.edge(r, ns[i+1])
+				for _, k := range append([]*cgCtx{n.kid}, n.kid.alts...) {
+					g.link(k)
+					g.edge(n, k.entry())
+					for _, r := range k.rets {
+						g.edge(r, ns[i+1])
+					}
 				}
 				continue
 			}
@@ -674,13 +718,150 @@ func (g *cGraph) phiEdges(cv CV) ([]cgEdge, bool) {
 
 func (g *cGraph) retEdges(kid *cgCtx, idx int) []cgEdge {
 	var out []cgEdge
-	for _, rn := range kid.rets {
-		ret := rn.last().(*ssa.Return)
-		if idx < len(ret.Results) {
-			out = append(out, cgEdge{CV{kid, ret.Results[idx]}, rn})
+	for _, k := range append([]*cgCtx{kid}, kid.alts...) {
+		for _, rn := range k.rets {
+			ret := rn.last().(*ssa.Return)
+			if idx < len(ret.Results) {
+				out = append(out, cgEdge{CV{k, ret.Results[idx]}, rn})
+			}
 		}
 	}
 	return out
+}
+
+type cgTarget struct {
+	fn    *ssa.Function
+	args  []CV
+	binds []CV
+}
+
+// fnTarget turns a resolved function value into a target (plain function, closure, bound method).
+func (g *cGraph) fnTarget(v CV, args []CV) (cgTarget, bool) {
+	switch f := v.V.(type) {
+	case *ssa.Function:
+		return cgTarget{origin(f), args, nil}, true
+	case *ssa.MakeClosure:
+		cf, ok := f.Fn.(*ssa.Function)
+		if !ok {
+			return cgTarget{}, false
+		}
+		if strings.HasSuffix(cf.Name(), "$bound") {
+			if obj, isObj := cf.Object().(*types.Func); isObj && obj != nil && len(f.Bindings) == 1 {
+				if m := g.p.SSA.FuncValue(obj); m != nil {
+					return cgTarget{origin(m), append([]CV{{v.C, f.Bindings[0]}}, args...), nil}, true
+				}
+			}
+			return cgTarget{}, false
+		}
+		var binds []CV
+		for _, b := range f.Bindings {
+			binds = append(binds, CV{v.C, b})
+		}
+		return cgTarget{origin(cf), args, binds}, true
+	}
+	return cgTarget{}, false
+}
+
+// tableTargets: the call's function value is an element of a literal table of function values (run in a
+// loop or picked by index), or a phi of function values: every candidate is a possible callee.
+func (g *cGraph) tableTargets(c *cgCtx, ci ssa.CallInstruction) []cgTarget {
+	cc := ci.Common()
+	if cc.IsInvoke() {
+		return nil
+	}
+	var args []CV
+	for _, a := range cc.Args {
+		args = append(args, CV{c, a})
+	}
+	v := g.res(CV{c, cc.Value})
+	var cands []CV
+	switch x := v.V.(type) {
+	case *ssa.Phi:
+		for _, e := range x.Edges {
+			cands = append(cands, g.res(CV{v.C, e}))
+		}
+	case *ssa.UnOp:
+		if x.Op != token.MUL {
+			return nil
+		}
+		ia, ok := g.res(CV{v.C, x.X}).V.(*ssa.IndexAddr)
+		if !ok {
+			return nil
+		}
+		base := g.res(CV{v.C, ia.X})
+		if sl, ok := base.V.(*ssa.Slice); ok && sl.Low == nil && sl.High == nil {
+			base = g.res(CV{base.C, sl.X})
+		}
+		al, ok := base.V.(*ssa.Alloc)
+		if !ok {
+			return nil
+		}
+		elems, ok := g.arrayElemsRaw(CV{base.C, al})
+		if !ok {
+			return nil
+		}
+		for _, e := range elems {
+			cands = append(cands, g.res(e))
+		}
+	default:
+		return nil
+	}
+	var out []cgTarget
+	for _, cv := range cands {
+		t, ok := g.fnTarget(cv, args)
+		if !ok {
+			return nil
+		}
+		out = append(out, t)
+	}
+	if len(out) > 8 {
+		return nil
+	}
+	return out
+}
+
+// soleImplementation: the interface is declared in the analysed package and exactly one of the package's
+// named types implements it (an internal seam): its method is the callee.
+func (g *cGraph) soleImplementation(iface types.Type, method *types.Func) *ssa.Function {
+	named, ok := iface.(*types.Named)
+	if !ok || named.Obj().Pkg() == nil || g.pkg == nil || named.Obj().Pkg() != g.pkg.Pkg {
+		return nil
+	}
+	it, ok := named.Underlying().(*types.Interface)
+	if !ok {
+		return nil
+	}
+	var found *ssa.Function
+	n := 0
+	scope := g.pkg.Pkg.Scope()
+	for _, name := range scope.Names() {
+		tn, ok := scope.Lookup(name).(*types.TypeName)
+		if !ok || tn.IsAlias() {
+			continue
+		}
+		t := tn.Type()
+		if _, isI := t.Underlying().(*types.Interface); isI {
+			continue
+		}
+		for _, cand := range []types.Type{t, types.NewPointer(t)} {
+			if !types.Implements(cand, it) {
+				continue
+			}
+			sel := g.p.SSA.MethodSets.MethodSet(cand).Lookup(method.Pkg(), method.Name())
+			if sel == nil {
+				continue
+			}
+			if m := g.p.SSA.MethodValue(sel); m != nil && len(m.Blocks) > 0 {
+				found = m
+				n++
+			}
+			break
+		}
+	}
+	if n != 1 {
+		return nil
+	}
+	return found
 }
 
 // joinOf returns the node at whose entry the (real or return) phi cv is formed.
@@ -963,6 +1144,33 @@ func (g *cGraph) fieldVals(basePtr CV, fld int, id FieldID, seen map[string]bool
 				var out []CV
 				for _, pv := range ptrs {
 					vs, ok := g.fieldVals(pv, fld, id, seen, depth+1)
+					if !ok {
+						return nil, false
+					}
+					out = append(out, vs...)
+				}
+				return out, true
+			}
+		}
+		// a pointer / interface value handed around (result of a constructor, phi of objects): its origins
+		if edges, ok := g.phiEdges(base); ok || isMakeIface(base) {
+			_ = edges
+			var objs []CV
+			allObjs := true
+			for _, src := range g.sources(base) {
+				if mi, ok := src.V.(*ssa.MakeInterface); ok {
+					src = g.res(CV{src.C, mi.X})
+				}
+				if _, ok := src.V.(*ssa.Alloc); ok {
+					objs = append(objs, src)
+				} else if !isNilConst(src.V) {
+					allObjs = false
+				}
+			}
+			if allObjs && len(objs) > 0 {
+				var out []CV
+				for _, o := range objs {
+					vs, ok := g.fieldVals(o, fld, id, seen, depth+1)
 					if !ok {
 						return nil, false
 					}
@@ -1539,4 +1747,180 @@ func (g *cGraph) singleFieldValue(a CV, fa *ssa.FieldAddr) (CV, bool) {
 		}
 	}
 	return CV{}, false
+}
+
+func isMakeIface(v CV) bool {
+	_, ok := v.V.(*ssa.MakeInterface)
+	return ok
+}
+
+// altIndex: position of c among the possible callees of its call site (0 = first / only).
+func (c *cgCtx) altIndex() (first *cgCtx, idx int) {
+	if c.parent == nil {
+		return c, 0
+	}
+	in, _ := c.site.(ssa.Instruction)
+	k := c.parent.kids[in]
+	if k == nil || k == c {
+		return c, 0
+	}
+	for i, a := range k.alts {
+		if a == c {
+			return k, i + 1
+		}
+	}
+	return c, 0
+}
+
+// tableBefore: a and b lie in different elements i < j of one literal table of functions that a range loop
+// runs in order: whenever b executes, a has executed before (elements are visited ascending, none skipped).
+func (g *cGraph) tableBefore(a, b *cgNode) bool {
+	chain := func(n *cgNode) []*cgCtx {
+		var out []*cgCtx
+		for c := n.C; c != nil; c = c.parent {
+			out = append(out, c)
+		}
+		return out
+	}
+	for _, ca := range chain(a) {
+		fa, ia := ca.altIndex()
+		for _, cb := range chain(b) {
+			fb, ib := cb.altIndex()
+			if ca == cb || fa != fb || ca.parent != cb.parent || ca.site != cb.site {
+				continue
+			}
+			if ia >= ib {
+				return false
+			}
+			// the call's function value is table[i] with i the ascending index of a range loop
+			call, ok := ca.site.(*ssa.Call)
+			if !ok {
+				return false
+			}
+			ld, ok := call.Call.Value.(*ssa.UnOp)
+			if !ok {
+				return false
+			}
+			ix, ok := ld.X.(*ssa.IndexAddr)
+			if !ok {
+				return false
+			}
+			idx := ix.Index
+			if bo, ok := idx.(*ssa.BinOp); ok && bo.Op == token.ADD {
+				idx = bo.X
+			}
+			phi, ok := idx.(*ssa.Phi)
+			if !ok {
+				return false
+			}
+			for _, e := range phi.Edges {
+				switch y := e.(type) {
+				case *ssa.Const:
+				case *ssa.BinOp:
+					if y.Op != token.ADD || y.X != ssa.Value(phi) {
+						return false
+					}
+				default:
+					return false
+				}
+			}
+			return true
+		}
+	}
+	return false
+}
+
+// condsThrough: like domConds, but at the continuation of an expanded call it continues into the callee when
+// the conditions established after the call (err == nil, ok == true, kind == K on the call's results) leave a
+// single return of the callee feasible: a helper's result stays correlated with the caller's branch.
+func (g *cGraph) condsThrough(n *cgNode) []cgCond {
+	var out []cgCond
+	seen := map[*cgNode]bool{}
+	for x := n; x != nil && !seen[x]; {
+		seen[x] = true
+		if len(x.preds) == 1 {
+			if c, ok := g.edgeCond(x.preds[0], x); ok {
+				out = append(out, c)
+			}
+			x = x.idom
+			continue
+		}
+		// a join: the continuation of an expanded call?
+		var feas []*cgNode
+		isCont := len(x.preds) > 1
+		for _, p := range x.preds {
+			if _, isRet := p.last().(*ssa.Return); !isRet || p.C == x.C {
+				isCont = false
+			}
+		}
+		if isCont {
+			for _, p := range x.preds {
+				if g.retFeasible(x, p, out) {
+					feas = append(feas, p)
+				}
+			}
+		}
+		if len(feas) == 1 {
+			x = feas[0]
+			continue
+		}
+		x = x.idom
+	}
+	return out
+}
+
+// retFeasible: can control have entered continuation j from return node p, given conds (those established
+// at or after j are used)?
+func (g *cGraph) retFeasible(j, p *cgNode, conds []cgCond) bool {
+	for _, dc := range conds {
+		if !g.dominates(j, dc.At) {
+			continue
+		}
+		c, br := g.stripNot(dc.Cond, dc.Branch)
+		if g.joinOf(c) == j {
+			// a boolean result
+			if sib, ok := g.sibling(c, cgEdge{Pred: p}); ok {
+				if k, isK := g.res(sib).V.(*ssa.Const); isK && k.Value != nil && k.Value.Kind() == constant.Bool {
+					if constant.BoolVal(k.Value) != br {
+						return false
+					}
+				}
+			}
+			continue
+		}
+		cmp, ok := g.decode(c, br)
+		if !ok || (cmp.Op != token.EQL && cmp.Op != token.NEQ) {
+			continue
+		}
+		xv, yv := g.res(cmp.X), g.res(cmp.Y)
+		if _, isK := xv.V.(*ssa.Const); isK {
+			xv, yv = yv, xv
+		}
+		kc, isK := yv.V.(*ssa.Const)
+		if !isK || g.joinOf(xv) != j {
+			continue
+		}
+		sib, ok := g.sibling(xv, cgEdge{Pred: p})
+		if !ok {
+			continue
+		}
+		sib = g.res(sib)
+		if kc.IsNil() {
+			wantNil := cmp.Op == token.EQL
+			if wantNil && g.nonNil(sib, p) {
+				return false
+			}
+			if !wantNil && g.knownNil(sib, p) {
+				return false
+			}
+			continue
+		}
+		if sk, ok := sib.V.(*ssa.Const); ok && sk.Value != nil && kc.Value != nil && sk.Value.Kind() == kc.Value.Kind() {
+			eq := constant.Compare(sk.Value, token.EQL, kc.Value)
+			if eq != (cmp.Op == token.EQL) {
+				return false
+			}
+		}
+	}
+	return true
 }
